@@ -219,6 +219,39 @@ def check_property(prop, tier):
     os.makedirs(REPLAYS, exist_ok=True)
     lines = []
     seen_v = set()
+
+    # Bounded stand-in (labelled so, never counted as proved): when a builtin unit can no longer be decided
+    # deductively on this tree (its extracted text stopped compiling against the proof text - a changed type,
+    # a renamed local, a construct outside the dialect), the boundary differential runs on the REAL builtins
+    # of that unit.  A concrete input on which the real code panics or disagrees with the reference model is a
+    # violation with a replayable counterexample; finding none leaves the unit undecided (exit 2).
+    standin = {}
+    if prop in ("C12", "C15"):
+        fam = {"builtins_binary": "binary_", "builtins_integer": "integer_", "builtins_vector": "vector_", "rope": "binary_", "heap": "binary_"}
+        broken = [u for u in units if u in fam and any(("does not compile" in x or x.startswith("extract")) for x in results[u].infra)]
+        if broken:
+            try:
+                from . import cesearch
+
+                names = sorted({n for n in cesearch.BUILTINS if any(n.startswith(fam[u]) for u in broken)} | ({n for n in cesearch.BUILTINS if n.startswith("vector_")} if any(u in ("rope", "heap") for u in broken) else set()))
+                rep = cesearch.grid(names, seed, cap=1500)
+                dis = rep["disagreements"]
+                if prop == "C15":
+                    dis = [d for d in dis if "panic" in d["observed"] or "abort" in d["observed"]]
+                standin = {"bounded": True, "ran_because_undecided": broken, "builtins": names, "calls_on_real_code": rep["calls"], "failing_inputs": len(dis)}
+                seen_b = set()
+                for d in dis:
+                    if d["builtin"] in seen_b:
+                        continue
+                    seen_b.add(d["builtin"])
+                    rp = os.path.join(REPLAYS, "%s_standin_%s.json" % (prop, d["builtin"]))
+                    with open(rp, "w") as fh:
+                        json.dump({"property": prop, "obligation": "bounded_standin::" + d["builtin"], "class": "safety" if "panic" in d["observed"] else "functional",
+                                   "verifier_message": "the unit could not be decided deductively on this tree (%s); the bounded boundary differential on the real code found a failing input" % "; ".join(x for u in broken for x in results[u].infra)[:300],
+                                   "failing_expression": None, "counterexample": {"found": True, "input": d}}, fh, indent=1)
+                    lines.append("VIOLATION property=%s replay=%s" % (prop, rp))
+            except Exception as e:  # infrastructure trouble is never an alarm
+                undecided.append("bounded stand-in could not run: %r" % (e,))
     for oid, f, r in violations:
         keyv = (oid, f["class"], f.get("expr"))
         if keyv in seen_v:
@@ -322,6 +355,7 @@ def check_property(prop, tier):
             "obligations": n_ob,
             "discharged": n_ok,
             "bounded_not_counted_as_proved": n_bounded,
+            "bounded_standin": standin,
             "partial_not_counted_as_proved": [{"obligation": k, "verifier_limits": v} for k, v in sorted(partial.items())],
             "verifier_limits": [l for l in limits.get("limits", []) if any(l.get("id") in v for v in partial.values())],
             "checker_cmd": " ; ".join(sorted(set(cmds)))[:2000] + " (run in /verif/build/gen on files re-extracted from /repo's working tree)",
